@@ -49,6 +49,7 @@ class S(NamedTuple):
 
 class Log:
     def __init__(self):
+        self.last = None  # wall-clock time of the last observed event while a run is active
         self.ev = []
         self.attempts = 0
         self.over = False
@@ -56,11 +57,36 @@ class Log:
 
     def add(self, kind):
         def cb(*a):
+            self.touch()
             self.ev.append((kind,) + tuple(np.asarray(x).tolist() for x in a))
 
         return cb
 
+    def touch(self):
+        import time
+
+        if self.last is not None:
+            self.last = time.time()
+
+    def watch(self):
+        """Background thread: a run that produces no event at all for STALL_S seconds is stalled
+        (every legitimate run is bounded by the attempt and report budgets)."""
+        import threading
+        import time
+
+        def loop():
+            while True:
+                time.sleep(5.0)
+                last = self.last
+                if last is not None and time.time() - last > common.STALL_S and common.STALL_HOOK[0] is not None:
+                    common.STALL_HOOK[0](f"the adaptive loop made no attempt and no report for {common.STALL_S:.0f} s (normal runs finish in milliseconds): "
+                                         "requested times are never reported")
+
+        th = threading.Thread(target=loop, daemon=True)
+        th.start()
+
     def attempt(self, t, dt, u, n):
+        self.touch()
         self.ev.append(("step", np.asarray(t).tolist(), np.asarray(dt).tolist(), np.asarray(u).tolist(), np.asarray(n).tolist()))
         self.attempts += 1
         if self.attempts > ATTEMPT_BUDGET:
@@ -69,6 +95,7 @@ class Log:
 
     def report(self, kind, t, ft, tt, n):
         """Interpolation/report events; also a watchdog against loops that spin without stepping."""
+        self.touch()
         self.ev.append((kind, np.asarray(t).tolist(), np.asarray(ft).tolist(), np.asarray(tt).tolist(), np.asarray(n).tolist()))
         self.reports += 1
         return np.asarray(self.reports > REPORT_BUDGET)
@@ -170,12 +197,22 @@ def _runner(kind, clip, num_save):
         return sol.t, sol.u, sol.num_steps
 
     jitted = jax.jit(run)
+    log.watch()
+    compiled = [False]
 
     def call(save_at, dt0, eps, breaks, values, p, cparams):
+        import time
+
         log.take()
-        with common.lib_call("solve_adaptive_save_at(scripted)"):
-            out = jitted(jnp.asarray(save_at), float(dt0), float(eps), jnp.asarray(breaks), jnp.asarray(values), float(p), jnp.asarray(cparams))
-            out = [np.asarray(o) for o in out]
+        # the first call compiles (no events yet): give it a generous head start
+        log.last = time.time() + (0.0 if compiled[0] else 120.0)
+        compiled[0] = True
+        try:
+            with common.lib_call("solve_adaptive_save_at(scripted)"):
+                out = jitted(jnp.asarray(save_at), float(dt0), float(eps), jnp.asarray(breaks), jnp.asarray(values), float(p), jnp.asarray(cparams))
+                out = [np.asarray(o) for o in out]
+        finally:
+            log.last = None
         ev, over = log.take()
         return out, ev, over
 
